@@ -341,6 +341,10 @@ pub struct KnownFinding {
     pub status: String,
     pub class: String,
     pub what: String,
+    pub engine: String,
+    /// explicit witness case, re-executed by every run of the engine: a known finding is then
+    /// always seen (and reported as KNOWN-FINDING), a fixed one is a permanent regression case
+    pub case: Option<Value>,
 }
 
 pub fn load_known(path: &str) -> Vec<KnownFinding> {
@@ -359,6 +363,8 @@ pub fn load_known(path: &str) -> Vec<KnownFinding> {
             status: f.get("status").and_then(|s| s.as_str()).unwrap_or("").to_string(),
             class: f.get("match").and_then(|m| m.get("class")).and_then(|s| s.as_str()).unwrap_or("").to_string(),
             what: f.get("what").and_then(|s| s.as_str()).unwrap_or("").to_string(),
+            engine: f.get("engine").and_then(|s| s.as_str()).unwrap_or("").to_string(),
+            case: f.get("case").cloned(),
         });
     }
     out
@@ -374,6 +380,8 @@ pub struct RunConfig {
     pub verif_dir: String,
     pub minimise_budget_s: u64,
     pub time_budget_s: Option<u64>,
+    /// committed known_findings.json (never written at run time)
+    pub known_path: String,
 }
 
 /// Returns the process exit code.
@@ -416,6 +424,21 @@ pub fn drive(eng: Box<dyn Engine>, ctx: Ctx, cfg: RunConfig) -> i32 {
     for h in handles {
         let _ = h.join();
     }
+    // witnesses of recorded findings (known and fixed) for this engine
+    let known_for_witness = load_known(&cfg.known_path);
+    let mut witnesses_run = 0u64;
+    for k in known_for_witness.iter().filter(|k| k.engine == eng.name()) {
+        if let Some(case) = &k.case {
+            let mut w = None;
+            match exec_case(&*eng, &ctx, &mut w, case) {
+                Ok(vs) => {
+                    witnesses_run += 1;
+                    merged.lock().unwrap().violations.extend(vs);
+                }
+                Err(e) => merged.lock().unwrap().harness_errors.push(format!("witness of {:?}: {}", k.class, e)),
+            }
+        }
+    }
     let explore_s = start.elapsed().as_secs_f64();
     let _ = std::fs::remove_dir_all(format!("{}/scratch/{}", ctx.target, eng.name()));
     let mut m = std::mem::take(&mut *merged.lock().unwrap());
@@ -438,7 +461,7 @@ pub fn drive(eng: Box<dyn Engine>, ctx: Ctx, cfg: RunConfig) -> i32 {
         }
     }
 
-    let known = load_known(&format!("{}/known_findings.json", cfg.verif_dir));
+    let known = load_known(&cfg.known_path);
     let replay_dir = format!("{}/replays", cfg.verif_dir);
     let mut exit = 0;
     let mut n_viol = 0u64;
@@ -509,6 +532,7 @@ pub fn drive(eng: Box<dyn Engine>, ctx: Ctx, cfg: RunConfig) -> i32 {
     }
     coverage.insert("reported".into(), json!(reported));
     coverage.insert("known_findings_seen".into(), json!(n_known));
+    coverage.insert("recorded_witnesses_reexecuted".into(), json!(witnesses_run));
     coverage.insert("harness_errors".into(), json!(m.harness_errors));
     if let Value::Object(o) = eng.extra_evidence(&m.stats) {
         for (k, v) in o {
